@@ -23,6 +23,46 @@ def watson_kernel(recs):
     return recs
 
 
+def bingham_grad(lam):
+    """d log c / d lambda_e for the complex Bingham normaliser c(lambda) = sum_j exp(lambda_j) prod_{k != j} 1 / (lambda_j -
+    lambda_k), in closed form with mpmath (150 digits; coinciding eigenvalues are separated by 1e-20, which changes the
+    analytic function by O(1e-20))."""
+    import mpmath as mp
+    mp.mp.dps = 150
+    D = len(lam)
+    x = [mp.mpf(v) + j * mp.mpf('1e-20') for j, v in enumerate(lam)]
+    a = [mp.mpf(1) / mp.fprod(x[j] - x[k] for k in range(D) if k != j) for j in range(D)]
+    c = mp.fsum(mp.e ** x[j] * a[j] for j in range(D))
+    out = []
+    for d in range(D):
+        g = mp.e ** x[d] * a[d] * (1 - mp.fsum(1 / (x[d] - x[k]) for k in range(D) if k != d))
+        g += mp.fsum(mp.e ** x[j] * a[j] / (x[j] - x[d]) for j in range(D) if j != d)
+        out.append(float(g / c))
+    return out
+
+
+def bingham_kernel(recs):
+    """Kernel table for the Bingham eigenvalue equation: gradient of the log normaliser at the returned eigenvalues."""
+    for r in recs:
+        if r.get('kind') not in ('mstep', 'single'):
+            continue
+        lam = r.get('bingham_lambda')
+        if lam is None:
+            r['bingham_lambda'], r['bingham_grad'] = [], []
+            continue
+        D = r['z']['shape'][-1]
+        grad = []
+        for i in range(0, len(lam), D):
+            row = lam[i:i + D]
+            if all(v == v and abs(v) != float('inf') for v in row):
+                grad += bingham_grad(row)
+            else:
+                grad += [float('nan')] * D
+        r['bingham_lambda'] = [enc.flt(v) for v in lam]
+        r['bingham_grad'] = [enc.flt(v) for v in grad]
+    return recs
+
+
 def run(chk):
     q = chk.tier == 'quick'
     chk.rule = ('M: EMLoop.tla (loop shape, one M-step per iteration, SplitEqualsWhole); exact lattice mixture weights for '
@@ -35,7 +75,7 @@ def run(chk):
     chk.mc('emloop', 'EMLoop', 'MC_EMLoop.cfg', workers=4)
     recs = core.run_driver_parallel('em', tier=chk.tier, seed=chk.seed,
                                     cases=core.run_cases('em', chk.tier, chk.seed, {}), jobs=8, timeout=3000)
-    recs = watson_kernel(recs)
+    recs = bingham_kernel(watson_kernel(recs))
     al = [r for r in recs if r['kind'] == 'apply']
     mm = [r for r in recs if r['kind'] != 'apply']
     chk.validate('estimators', 'Trace_MM', 'Trace_MM.cfg', mm, driver='em', jobs=14)
@@ -54,8 +94,8 @@ def run(chk):
     core.binding_demo(chk, 'bind-tyler', 'Trace_MM', 'Trace_MM.cfg', good, corrupt, 'cacg_tyler_step', candidates=goods[1:])
     chk.assumptions = ['observations enter on the unit sphere (normalised by the driver; C04 covers the normalisation)',
                        'Watson concentration: mpmath kernel, tolerance 4096*2^-19 for the spline inverse',
-                       'Bingham eigenvalue equation and the pooled Gaussian / vMF stream of the integration models are not '
-                       'evaluated (weights and cACG part are)']
+                       'Bingham eigenvalue equation: mpmath kernel (closed-form gradient of the log normaliser), evaluated where '
+                       'the solver box is inactive (eigenvalue gaps within (2^-6, max_concentration (1 - 2^-8)))']
 
 
 def replay(path):
